@@ -85,7 +85,10 @@ def wide_cases(u, groups, rng, tier, op):
         names = [n for n in pick if n in u.by_name]
     for i, name in enumerate(names):
         # double keys: the model's key comparison is costly in the extracted code; one width is enough
-        for w in (widths[-1:] if 'Double' in name else widths):
+        ws = widths[-1:] if 'Double' in name else widths
+        if tier == 'quick' and name == 'M1StringXI64':
+            ws = [1021, 1022, 1023, 1100]       # around the number of units of the depth budget
+        for w in ws:
             r = rng.fork('wide%s%d' % (name, w))
             v = ValGen(u, r, max_depth=2, wide=w).val(st(name))
             if op == 'rt':
@@ -150,6 +153,21 @@ def c03_cases(u, groups, rng, tier):
     """well-formed messages from any writer: own encoding, foreign field order, evolved schemas, trailing bytes"""
     b = budget(tier)
     out = leftover_cases(u, rng.fork('leftover'), per=1) + wide_cases(u, groups, rng.fork('wide'), tier, 'dec')
+    # an unknown field that looks exactly like a known neighbour: a copy of the lowest-id field under
+    # id 0 (of the highest under 65535), before and after the known fields
+    for i, name in enumerate(all_names(u)):
+        if tier == 'quick' and i % 3:
+            continue
+        r = rng.fork('edge' + name)
+        v = ValGen(u, r, big=False, max_depth=2).val(st(name))
+        w = denote_py(u, st(name), v)
+        if w[0] != 'st' or not w[1]:
+            continue
+        lo = min(w[1], key=lambda f: f[1])
+        hi = max(w[1], key=lambda f: f[1])
+        for extra, front in (((lo[0], 0, lo[2]), True), ((lo[0], 0, lo[2]), False), ((hi[0], 65535, hi[2]), False)):
+            fs = [extra] + list(w[1]) if front else list(w[1]) + [extra]
+            out.append(('(dec %s fresh %s)' % (name, hexs(put_py(('st', fs, w[2])))), {'type': name, 'op': 'dec', 'shape': 'edge-id-copy'}))
     for name in all_names(u):
         r = rng.fork('c03' + name)
         for j in range(b['msgs_per_type'] + 1):
@@ -411,6 +429,12 @@ def c15_cases(u, groups, rng, tier):
     for d in [1, 47, 48, 49, 340, 341, 342, 511, 512, 1024]:
         msg = (b'\x0d\x00\x01\x0c\x08\x00\x00\x00\x01' * d) + b'\x00' + (b'\x00\x00\x00\x05\x00' * d)
         out.append(('(dec RecKey fresh %s)' % hexs(msg), {'type': 'RecKey', 'op': 'dec', 'shape': 'mapkey', 'depth': d}))
+    # a deep key behind a wide map: the number of entries must not enter the depth accounting
+    for w_ in ([1100] if tier == 'quick' else [2, 100, 1021, 1022, 1023, 1100, 5000]):
+        for d in ([20, 3000] if tier == 'quick' else [1, 20, 340, 342, 3000, 100000]):
+            deep = (b'\x0d\x00\x01\x0c\x08\x00\x00\x00\x01' * d) + b'\x00' + (b'\x00\x00\x00\x05\x00' * d)
+            msg = b'\x0d\x00\x01\x0c\x08' + w_.to_bytes(4, 'big') + deep + b'\x00\x00\x00\x07' + (b'\x00\x00\x00\x00\x01' * (w_ - 1)) + b'\x00'
+            out.append(('(dec RecKey fresh %s)' % hexs(msg), {'type': 'RecKey', 'op': 'dec', 'shape': 'mapkey-wide', 'depth': d}))
     return out
 
 
